@@ -695,6 +695,19 @@ def round2_programs(dev):
             {"op": "transfer", "src": P, "sw": L([(0, 0)]), "dst": P, "dw": L([(0, 1)]), "vols": S(1), "label": "one", "wash": 1},
             {"op": "transfer", "src": T, "sw": L([(0, 0)]), "dst": P, "dw": L([(1, 1)]), "vols": S(1), "label": "one from the trough", "wash": 1},
         ], wlmax=10, flags={"comp": False, "norm": False, "fullhist": True})
+    # a very deep dilution series (three times 1:500, then twice 1:100): the fractions leave the range the exact arithmetic of the
+    # checks supports, the PRESENCE of every component is still judged (C05.support)
+    lws = [gen.mk_plate("series", 1, 6, 0, 600, [500, 499, 499, 499, 495, 495], names=["dye", "w1", "w2", "w3", "w4", "w5"]),
+           gen.mk_plate("assay", 2, 2, 0, 600, [0, 100, 0, 0], names=[None, "buffer", None, None])]
+    prog("deep-dilution", lws, [
+        {"op": "transfer", "src": 0, "sw": L([(0, 0)]), "dst": 0, "dw": L([(0, 1)]), "vols": S(1), "label": "1:500", "wash": 1},
+        {"op": "transfer", "src": 0, "sw": L([(0, 1)]), "dst": 0, "dw": L([(0, 2)]), "vols": S(1), "label": "1:250000", "wash": 1},
+        {"op": "transfer", "src": 0, "sw": L([(0, 2)]), "dst": 0, "dw": L([(0, 3)]), "vols": S(1), "label": "1:1.25e8", "wash": 1},
+        {"op": "transfer", "src": 0, "sw": L([(0, 3)]), "dst": 0, "dw": L([(0, 4)]), "vols": S(5), "label": "1:1.25e10", "wash": 1},
+        {"op": "transfer", "src": 0, "sw": L([(0, 4)]), "dst": 0, "dw": L([(0, 5)]), "vols": S(5), "label": "1:1.25e12", "wash": 1},
+        {"op": "transfer", "src": 0, "sw": L([(0, 5), (0, 3)]), "dst": 1, "dw": L([(0, 0), (1, 0)]), "vols": L([100, 50]), "label": "to the assay plate", "wash": 1},
+        {"op": "transfer", "src": 1, "sw": L([(0, 0)]), "dst": 1, "dw": L([(0, 1)]), "vols": S(20), "label": "onto buffer", "wash": 1},
+    ], wlmax=200, flags={"comp": True, "norm": False, "deep": True})
     # mixing in place (source well = destination well): the aspiration is still subject to min_volume
     lws = [gen.mk_plate("plate", 2, 2, 5, 30, [20, 8, 0, 6]), gen.mk_trough("trough", 4, 2, 10, 60, [24, 12])]
     prog("mix-in-place", lws, [
